@@ -20,13 +20,14 @@ pub enum St {
 pub struct Status {
     pub exited: bool,
     pub val: i32, // exit code or signal number
+    pub core: bool, // killed by a signal, and the kernel wrote a core file (bit 0x80 of the wait status)
 }
 impl Status {
     pub fn raw(&self) -> c_int {
         if self.exited {
             (self.val & 0xff) << 8
         } else {
-            self.val & 0x7f
+            (self.val & 0x7f) | if self.core { 0x80 } else { 0 }
         }
     }
     pub fn json(&self) -> Value {
@@ -122,7 +123,7 @@ impl PSim {
             match sc.get(self.spos).copied() {
                 Some(b'X') => {
                     if self.st == St::Running {
-                        let s = self.script_exit.clone().unwrap_or(Status { exited: true, val: 0 });
+                        let s = self.script_exit.clone().unwrap_or(Status { exited: true, val: 0, core: false });
                         self.st = St::Zombie;
                         self.status = Some(s.clone());
                         self.exit_time = Some(self.now);
@@ -280,7 +281,7 @@ impl PSim {
                 None => {
                     // would block for ever: note it, then let the child die so the run can go on
                     self.log(json!({"e":"hang_wait"}));
-                    self.exit_at = Some((self.now, Status { exited: false, val: 9 }));
+                    self.exit_at = Some((self.now, Status { exited: false, val: 9, core: false }));
                     self.env_due();
                 }
             }
@@ -346,7 +347,7 @@ impl PSim {
                     let t = self.now + self.kill_latency;
                     let sooner = self.exit_at.as_ref().map_or(true, |x| t < x.0);
                     if sooner {
-                        self.exit_at = Some((t, Status { exited: false, val: sig }));
+                        self.exit_at = Some((t, Status { exited: false, val: sig, core: false }));
                     }
                 }
                 if sig < 0 || sig > 64 {
